@@ -1,5 +1,5 @@
 (* C17 - executable model of /repo/src/sc_options.c (with the repairs bb105d5, 5b6f754, ede139e, 69d3f48,
-   5918853, 6404e3e, 5a6ac04, bd8c44f; iniparser with cfc9e38), of the ini reader /repo/iniparser/iniparser.c + dictionary.c as far as
+   5918853, 6404e3e, 5a6ac04, bd8c44f, 57534b2; iniparser with cfc9e38), of the ini reader /repo/iniparser/iniparser.c + dictionary.c as far as
    sc_options uses it, and of sc_keyvalue_get_int_check.  Definitions only; proofs are in
    NumProofs.v / IniProofs.v / OptionsProofs.v / GetoptProofs.v.
 
@@ -346,6 +346,16 @@ Inductive gevent :=
 | GShort (c : Z) (arg : option str)      (* option character *)
 | GLong (idx : Z) (arg : option str).    (* 0, *flag = val = item index *)
 
+(* IEEE-754 binary64 bit patterns (0 <= x < 2^64): magnitude = everything but the sign bit *)
+Definition dbl_mag (x : Z) : Z := x mod 2 ^ 63.
+Definition dbl_is_zero (x : Z) : bool := dbl_mag x =? 0.                            (* dbl == 0. : +0 and -0 *)
+Definition dbl_is_inf (x : Z) : bool := dbl_mag x =? 0x7FF0000000000000.            (* dbl == HUGE_VAL || dbl == -HUGE_VAL *)
+(* 57534b2: `errno == ERANGE && (dbl == 0. || dbl == HUGE_VAL || dbl == -HUGE_VAL)` - a subnormal result (glibc raises
+   ERANGE for it as well) is representable and accepted; underflow to zero and overflow are the errors *)
+Definition dbl_error (x : Z) (erange : bool) : bool := erange && (dbl_is_zero x || dbl_is_inf x).
+(* the rule before 57534b2 (`errno == ERANGE`), kept for the regression witness only *)
+Definition dbl_error_old (x : Z) (erange : bool) : bool := erange.
+
 Section Model.
 Variable strtod : str -> Z * bool.       (* bit pattern, ERANGE raised *)
 Variable fmt16 : Z -> str.               (* "%.16g" of the double with this bit pattern *)
@@ -416,7 +426,7 @@ Definition load_item (d : dict) (kvs : list (nat * kvtab)) (sobjs : list (nat * 
           if b =? -1 then (false, st, it) else (true, st_set st (it_var it) (VI b), it)
       | TInt => let '(x, e) := ini_int v in (negb e, st_set st (it_var it) (VI x), it)
       | TSize => let '(x, e) := ini_sizet v in (negb e, st_set st (it_var it) (VI x), it)
-      | TDouble => let '(x, e) := strtod v in (negb e, st_set st (it_var it) (VD x), it)
+      | TDouble => let '(x, e) := strtod v in (negb (dbl_error x e), st_set st (it_var it) (VD x), it)
       | TString => (true, string_set sobjs st (it_var it) (Some v), it)
       | TKeyvalue =>
           let t := match al_get kvs (it_kv it) with Some t => t | None => [] end in
@@ -629,7 +639,8 @@ Definition apply_item (w : world) (o : nat) (k : nat) (it : item) (arg : option 
       | None => (R_CRASH, w)
       | Some a =>
           let '(x, e) := strtod a in
-          if e then (-1, set_errno w ERANGE) else (0, set_errno (set_store w (st_set st (it_var it) (VD x))) 0)
+          let en := if e then ERANGE else 0 in
+          if dbl_error x e then (-1, set_errno w en) else (0, set_errno (set_store w (st_set st (it_var it) (VD x))) en)
       end
   | TString => ok (string_set (w_sobjs w) st (it_var it) arg)
   | TIni =>
